@@ -5,11 +5,15 @@ targets of every kind, cross-namespace, locales where the target is null/inherit
 impl vs model on the whole dump; impl vs spec: the denotation of the referencing key equals the denotation of the
 target key in the same locale under the substituted environment."""
 from .pipe import *
+from .c03 import walk, exhaustive_projects
+
+WALK_CORPUS = exhaustive_projects()
 import itertools
 
 RULE = ("reference graphs: a target key of every kind (string with variables/components, literal, range, plural, subkey leaf, another reference) and "
         "referencing keys `pre $t(path, {args}) post` with every argument kind (string, number, bool, interpolated string, nested $t, literal count, "
-        "renamed count), chains up to depth 6, 1-3 locales incl. null targets with/without inherits, namespaces; all cyclic graphs on <= 3 keys "
+        "renamed count), chains up to depth 6, 1-3 locales incl. null targets with/without inherits, namespaces, literal counts on and next to every bound of 5 range shapes; "
+        "references (direct, to a group leaf, chained, nested as argument) over every inherits map on 4 locales x presence patterns of their targets; all cyclic graphs on <= 3 keys "
         "(<= 4 in thorough); non-trivial = at least one argument substituted; distinct = distinct project text")
 
 
@@ -171,7 +175,8 @@ def subst_env(base, args, parse_arg):
 
 
 def fallback_witnesses():
-    """F11 / F20: a reference whose target is null / absent in a locale that inherits from a non-default locale"""
+    """regression witnesses of F11 / F20 (fixed): a reference whose target is null / absent in a locale that inherits from a
+    non-default locale"""
     out = []
     for pres in ("null", "absent"):
         files = {(None, "en"): proj.O([("a", "A-en"), ("b", "$t(a)!")]),
@@ -180,6 +185,80 @@ def fallback_witnesses():
         out.append({"default": "en", "locales": ["en", "fr", "fr-CA"], "all_locales": ["en", "fr", "fr-CA"], "namespaces": None,
                     "inherits": {"fr-CA": "fr"}, "files": files, "extra_cfg": False, "meta": {}, "witness": pres})
     return out
+
+
+def walk_family(rng, n):
+    """C03's family (every `inherits` map on en/fr/de/es x presence pattern of a value key `a` and a group leaf `g.x`) with
+    references to both: `b: "$t(a)!"`, `c: "<$t(g.x)>"`, `d: "$t(b) $t(w, {"v": "$t(a)"})"` present in the default locale and in
+    some of the others (so that the referencing keys are themselves reached through the fallback)"""
+    out = []
+    for p in rng.sample(WALK_CORPUS, n):
+        q = dict(p)
+        q["files"] = {}
+        for (ns, l), tree in p["files"].items():
+            pairs = [list(kv) for kv in tree["o"]]
+            if l == "en" or rng.chance(2, 3):
+                pairs.append(["b", "$t(a)!"])
+                pairs.append(["c", "<$t(g.x)>"])
+                pairs.append(["d", "$t(b) $t(w, {\"v\": \"$t(a)\"})"])
+            if l == "en" or rng.chance(1, 2):
+                pairs.append(["w", "W-" + l + " {{ v }}"])
+            q["files"][(ns, l)] = {"o": pairs}
+        q["walk_family"] = True
+        out.append(q)
+    return out
+
+
+def walk_family_oracle(ctx, p, o, i):
+    """spec, written from the property and C03 only: key `k` rendered for locale `l` is the text written for `k` in the
+    effective locale `e` of `k` for `l`; a reference inside that text names what its target renders for `e`"""
+    ctx.seen(project_text(p), nontrivial=True)
+    if "ok" not in o["ci"]:
+        report_violation(ctx, "foreign:resolvable-reference-rejected", {"case": project_text(p), "implementation": o["impl"]["result"],
+                                                                       "expected_by_spec": "accepted: every target is defined in the default locale"})
+        return
+    ns_out = o["impl"]["result"]["ok"]["nss"][0]
+    inh = p["inherits"]
+
+    def defined(x, path):
+        cur = merged_key_tree(p["files"].get((None, x)))
+        for k in path:
+            if not isinstance(cur, dict) or k not in cur:
+                return False
+            cur = cur[k]
+            if cur == "null":
+                return False
+        return True
+
+    def eff(path, l):
+        return walk(inh, "en", lambda x: defined(x, path), l)
+
+    def txt(key, l):
+        e = eff((key,), l)
+        if key == "a":
+            return "A-" + e
+        if key == "b":
+            return txt("a", e) + "!"
+        if key == "c":
+            return "<X-" + eff(("g", "x"), e) + ">"
+        if key == "d":
+            return txt("b", e) + " W-" + eff(("w",), e) + " " + txt("a", e)
+    for l in p["locales"]:
+        for key in ("b", "c", "d"):
+            e = eff((key,), l)
+            if e != l:
+                ctx.count("referencing-key-through-fallback")
+            v = locale_value_at(ns_out, e, (key,))
+            if v is None:
+                continue
+            got, exp = pv_eval(Env(), v), txt(key, l)
+            if eff(("a",), e) not in (e, "en"):
+                ctx.count("target-through-inherits")
+            if got != exp:
+                report_violation(ctx, "foreign:target-not-read-in-effective-locale", {
+                    "case": project_text(p), "locale": l, "key": key, "text_of_the_key_taken_from": e, "inherits": inh,
+                    "expected_by_spec": exp, "implementation": got, "harness": "parser_h pipeline + denotation"})
+                return
 
 
 def subkey_target_projects():
@@ -256,11 +335,14 @@ def make_oracle(binp):
         ns_out = res["nss"][0]
         cats = {(l, r, k): f for l, r, k, f in o["impl"]["oracle"]["cat"]}
         for l in p["locales"]:
-            if g.get("t0_presence", {}).get(l) == "null":
-                ctx.count("target-null-in-locale")
-                continue       # fallback of a null target is C03's business (and known finding F11 when the locale inherits)
             tkey = "t0"
-            tv = locale_value_at(ns_out, l, (tkey,))
+            # the target is read in the effective locale of `t0` for `l` (C03's walk over `inherits`, then the default)
+            src_l = walk(p["inherits"], p["default"], lambda x: g.get("t0_presence", {}).get(x, "defined") == "defined", l)
+            if src_l != l:
+                ctx.count("target-null-in-locale")
+                if src_l != p["default"]:
+                    ctx.count("target-taken-from-inherited-locale")
+            tv = locale_value_at(ns_out, src_l, (tkey,))
             if tv is None or tv["t"] == "default":
                 continue
 
@@ -316,6 +398,7 @@ def run(ctx):
     try:
         generic_pipeline_check(ctx, [("I18nVerif.Theorems.C06", "C06_"), ("I18nVerif.Theorems.C06Order", "C06_")], projects, make_oracle(binp), "C06")
         generic_pipeline_check(ctx, [], fallback_witnesses(), witness_oracle, "C06-fallback-witnesses")
+        generic_pipeline_check(ctx, [], walk_family(rng, ctx.budget(600, 20000)), walk_family_oracle, "C06-fallback-walk")
         generic_pipeline_check(ctx, [], subkey_target_projects(), subkey_oracle, "C06-subkey-targets")
         more = [proj.gen_project(rng, {"fk": True}) for _ in range(ctx.budget(300, 6000))]
         generic_pipeline_check(ctx, [], more, lambda c, p, o, i: None, "C06-generated")
